@@ -282,6 +282,13 @@ def run_scenario(sc, base, fast=True, mode='each', real_passes=None, on_test=Non
                 s = stats.stats.get(repr(p))
                 return (s.worked, s.failed, s.totally_executed) if s else (0, 0, 0)
 
+            if sc.get('setup_delay'):
+                # work done between creating the statistics object and starting the clock of the run (cvise.py: --to-utf8,
+                # writing the --commands script, probing colordiff)
+                import time as _t
+                _t.sleep(sc['setup_delay'])
+            import time as _t
+            o.t_run0 = _t.monotonic()
             passes = real_passes if real_passes is not None else mk_passes(sc.get('passes', []))
             o.pass_objs = passes
             out = []
@@ -352,6 +359,7 @@ def run_scenario(sc, base, fast=True, mode='each', real_passes=None, on_test=Non
                 for dd in o.accepted:
                     out += enc_disk(dd)
             o.out = out
+            o.t_run = _t.monotonic() - o.t_run0
             o.sched_used = st.sched.pos
             o.stats = stats
     finally:
